@@ -28,6 +28,7 @@ var commands = map[string]func(args map[string]string){
 	"exclusive": cmdExclusive,
 	"pubsub":    cmdPubSub,
 	"caster":    cmdCaster,
+	"retry":     cmdRetry,
 }
 
 // usage: harness <driver> -k v -k v ...
